@@ -118,6 +118,7 @@ class HistoryRunner:
         for fl in case["cfg"].get("stampflags_on", []):
             self.disk.set_stampflag(fl, True)
             self.m.stampflags.add(fl)
+        self._mods_this_cmd = []
         self.step = 0
         self.ustat = {}
         for pth, f in self.m.fs.items():
@@ -246,6 +247,13 @@ class HistoryRunner:
                 m.stampflags.add(op[1])
             else:
                 m.stampflags.discard(op[1])
+        elif k == "usermodflag":
+            t = op[1]
+            if t in m.targets:
+                with open(os.path.join(disk.ctl, "usermod." + t.replace("/", "_")), "w"):
+                    pass
+                m.usermod_flags.add(t)
+                self.pending_changes.add("usermod")
         elif k == "crash":
             self.do_crash(op[1], op[2], op[3], op[4], op[5])
         elif k == "query":
@@ -354,7 +362,12 @@ class HistoryRunner:
         pre = {p: (f.data, f.ver, f.owner) for p, f in m.fs.items()}
         nested = has_nested_csum(m)
         self.pre_csum = {t: r.csum for t, r in m.rec.items()}
+        n_mods = len(m.concurrent_mod)
         ok_model = m.cmd_redo(targets) if kind == "redo" else m.cmd_ifchange(targets)
+        self._mods_this_cmd = m.concurrent_mod[n_mods:]
+        for p_ in self._mods_this_cmd:
+            self.user_kind[p_] = "replaced-while-building"
+            self.out.events["c11:file-replaced-by-hand-while-its-build-ran"] += 1
         cenv = getattr(self, "_crash_env", None)
         res = runner.run_cmd(disk, argv, cwd=cwd, env_extra=dict(self.env, **cenv) if cenv else self.env)
         self.out.commands += 1
@@ -413,6 +426,8 @@ class HistoryRunner:
                 # model says failure, binary says success: failure not propagated (C05) unless nothing failed
                 self.violate("C05", "failure-not-propagated", ctx, {"symptom": "exit 0"})
         self.check_cmd(kind, targets, cwd, res, ok_model, ex, calls, args, exits, pre, nested, ctx)
+        for p_ in self._mods_this_cmd:
+            self.note_user(p_)     # from now on inode and mtime of the hand-made file are watched too
         if ok_bin:
             self.pending_changes = set()
 
@@ -458,10 +473,11 @@ class HistoryRunner:
                     bad.append({"path": p, "got": _short(got), "want": _short(want)})
             if bad:
                 users = [b for b in bad if m.fs.get(b["path"]) is not None and m.fs[b["path"]].owner == "user"]
-                if users and len(users) == len(bad):
-                    # every wrong path is a file redo did not produce (or that was edited by hand since): it was
-                    # overwritten or removed -- that is C11's subject, not staleness
-                    self.violate("C11", "user-file-changed", dict(ctx, bad=bad), {"symptom": "user-file-changed"})
+                if users:
+                    # a wrong path is a file redo did not produce (or that was edited by hand since): it was
+                    # overwritten or removed -- that is C11's subject, not staleness (whatever else is wrong, e.g.
+                    # dependents that read the overwritten file, follows from it)
+                    self.violate("C11", "user-file-changed", dict(ctx, bad=bad), self.user_changed_sig(users))
                 self.violate("C01", "stale-content", dict(ctx, bad=bad),
                              {"symptom": "stale", "oob": m.oob_used})
             if self.pending_changes:
@@ -503,7 +519,7 @@ class HistoryRunner:
                     bad.append({"path": p, "got": _short(got), "want": _short(f.data), "stat": cur,
                                 "stat_before": self.ustat.get(p)})
             if bad:
-                self.violate("C11", "user-file-changed", dict(ctx, bad=bad), {"symptom": "user-file-changed"})
+                self.violate("C11", "user-file-changed", dict(ctx, bad=bad), self.user_changed_sig(bad))
             text = res.text()
             for p in m.warned:
                 ev["c11:override-warning-expected"] += 1
@@ -586,6 +602,15 @@ class HistoryRunner:
             s = disk.stray_files()
             if s:
                 self.violate("C04", "stray-tmp", dict(ctx, stray=s), {"symptom": "stray"})
+
+    def user_changed_sig(self, bad):
+        conc = [b["path"] for b in bad if b["path"] in self.m.concurrent_mod]
+        if conc and len(conc) == len(bad):
+            # the file was put there by hand WHILE a build of that name ran (redo cannot tell this from a script
+            # writing $1): overwritten by that very command, or only by a later one?
+            return {"symptom": "user-file-changed", "concurrent_mod": True,
+                    "same_command": any(p_ in self._mods_this_cmd for p_ in conc)}
+        return {"symptom": "user-file-changed"}
 
     def stamped(self, t):
         r = self.m.rule_for(t)
